@@ -5,6 +5,14 @@ V = os.path.dirname(os.path.dirname(os.path.abspath(__file__)))
 props = [json.loads(l) for l in open(os.path.join(V, 'properties.jsonl'))]
 
 CHECKS = {
+ 'C11': dict(level='model_checking', design='3/C11',
+   text='The parser is modelled at the level of syntactically meaningful lines (PatchText.tla); TLC evaluates the model on every token sequence up to the bound after several prefixes (totality of the case analysis) and emits them with its verdict; each is rendered in several byte spellings, truncated at every byte, byte-mutated, and parsed by the real parse_patch under catch_unwind with a counting allocator; numeric fields up to and beyond 2^64; samples through the binary (patch and series files). Exhaustive at token level, sampled below it.',
+   note='Trusted: TLC, the token renderer, the counting allocator. Arbitrary byte strings are only sampled (truncation/mutation). Agreement of accept/reject with the model is reported as a diagnostic.',
+   technique='TLA+ token-level parser model enumerated by TLC, replayed into parse_patch (panic/allocation oracle) and the CLI'),
+ 'C12': dict(level='model_checking', design='3/C12',
+   text='Parse(Write(p)) = p on everything C12 lists and Write is a fixed point: invariant of the PatchText model for every enumerated abstract patch (TLC) and for seeded multi-file-patch compositions (Val_Text); every patch is rendered in 2-4 input dialects and run through the real parse -> write -> parse -> write; the parse result is also compared with the abstract patch (binds the parser model).',
+   note='Trusted: TLC, toks.py renderer.',
+   technique='TLA+ model of parser and writer (PatchText.tla) checked by TLC + replay through the real parser/writer'),
  'C01': dict(level='model_checking', design='3/C01',
    text='TLC enumerates every edit script within bounds, derives the hunks diff prints for every context width (Diff.tla) and checks on the model that they apply exactly in both directions; every (A,B,c) is rendered in 10 header dialects and several byte spellings and replayed through the real parser+apply in-process (both directions, absent/empty variants), GNU diff output for the same pairs too, and a sample is pushed by the real binary.',
    note='Trusted: TLC, render.py (cross-checked by GNU diff as second producer). One known finding (context-free hunk at the top of a non-empty file).',
